@@ -465,6 +465,29 @@ Section Meta.
   Definition final_state (c : cfg) (hist : list event) : state :=
     fold_left (apply_event c) hist (init_state c).
 
+  (* ---- write_pmf (writeFreeEnergyFile): max(E) - E over the energy grid, times (bias_temperature + T)/bias_temperature
+     for well-tempered runs (single replica, no ebMeta) ---- *)
+
+  (* all index vectors of a grid, in the order of the array (last index fastest) *)
+  Fixpoint all_ix (nx : list Z) : list (list Z) :=
+    match nx with
+    | [] => [[]]
+    | n :: r => flat_map (fun i => map (cons (Z.of_nat i)) (all_ix r)) (seq 0 (Z.to_nat n))
+    end.
+
+  (* colvar_grid_scalar::maximum_value: max = data[0]; if (data[i] > max) max = data[i] *)
+  Definition grid_max (e : list Z -> T) (ixs : list (list Z)) : T :=
+    match ixs with
+    | [] => n0 O
+    | ix0 :: _ => fold_left (fun m ix => if nltb O m (e ix) then e ix else m) ixs (e ix0)
+    end.
+
+  (* add_constant(-1.0 * max); multiply_constant(-1.0); multiply_constant(well_temper_scale) *)
+  Definition pmf_value (c : cfg) (s : state) (temp : T) (ix : list Z) : T :=
+    let mx := grid_max (st_e s) (all_ix (gsizes (st_geom s))) in
+    let v := nmul O (nadd O (st_e s ix) (nmul O (nneg O (n1 O)) mx)) (nneg O (n1 O)) in
+    if c_wt c then nmul O v (ndiv O (nadd O (c_bias_temp c) temp) (c_bias_temp c)) else v.
+
   (* observers used by the correspondence driver *)
   Definition grid_energy_at (s : state) (ix : list Z) : T := st_e s ix.
   Definition grid_gradient_at (s : state) (ix : list Z) (k : nat) : T := st_g s ix k.
